@@ -3,6 +3,8 @@
 package gengorums
 
 import (
+	"text/template"
+
 	"github.com/relab/gorums"
 	"github.com/relab/gorums/internal/correctable"
 	"google.golang.org/protobuf/compiler/protogen"
@@ -400,6 +402,80 @@ func VerifC16ExplicitFalse() {
 	vAssert((len(mapAsyncOutType(nil, svc)) == 1) == (sel.template == asyncCall), "C16.async-type-disagrees-with-template")
 	vAssert((len(mapCorrectableOutType(nil, svc)) == 1) == (sel.template == correctableCall), "C16.correctable-type-disagrees-with-template")
 }
+
+// ---- the generation loop itself (who is validated, who is emitted) ----
+
+var vEmitted int
+
+//verif:stub github.com/relab/gorums/cmd/protoc-gen-gorums/gengorums.mustExecute
+func vstubMustExecute(t *template.Template, data interface{}) string { vEmitted++; return "" }
+
+//verif:stub github.com/relab/gorums/cmd/protoc-gen-gorums/gengorums.parseTemplate
+func vstubParseTemplate(name, tmpl string) *template.Template { return nil }
+
+//verif:stub (*google.golang.org/protobuf/compiler/protogen.GeneratedFile).P
+func vstubGenP(g *protogen.GeneratedFile, v ...interface{}) {}
+
+// VerifC16Service: a service with several methods goes through the REAL guard and the REAL
+// per-call-type generation loop (gorumsGuard, then genGorumsMethods for every call type with
+// an option; only template parsing/execution and GeneratedFile.P are stubbed and counted).
+// The first methods have documented shapes, the LAST one an arbitrary (symbolic) shape: an
+// illegal shape must stop the generator with a diagnostic wherever in the service it stands,
+// a documented one must be emitted exactly once - i.e. every method is validated and emitted,
+// not only the first.
+func VerifC16Service(nBefore int) {
+	before := []vShape{{quorumcall: true}, {rpc: true}, {multicast: true}}
+	var methods []*protogen.Method
+	svc := &protogen.Service{Desc: &vSvcDesc{}}
+	for i := 0; i < nBefore; i++ {
+		sh := before[vChoice("earlier-method", len(before))]
+		m := c16Method(&sh)
+		m.GoName = "Earlier" + string(rune('A'+i))
+		m.Parent = svc
+		methods = append(methods, m)
+	}
+	s := c16SymbolicShape()
+	last := c16Method(s)
+	last.Parent = svc
+	methods = append(methods, last)
+	svc.Methods = methods
+	file := &protogen.File{Services: []*protogen.Service{svc}, Messages: []*protogen.Message{{Desc: &vMsgDesc{name: "Request"}, GoIdent: protogen.GoIdent{GoName: "Request"}}}}
+	ncall := 0
+	for _, b := range []bool{s.unicast, s.multicast, s.quorumcall, s.correctable} {
+		if b {
+			ncall++
+		}
+	}
+	illegal := ncall >= 2 || (s.async && !s.quorumcall) || (s.correctable && s.async) ||
+		(s.clientStream && !s.multicast) || (s.serverStream && !s.correctable) || (s.correctable && s.clientStream)
+	naCombos := (s.custom && !(s.quorumcall || s.correctable)) || (s.perNode && !(s.multicast || s.quorumcall || s.correctable)) ||
+		(s.rpc && ncall > 0) || (s.async && (s.unicast || s.multicast)) || (s.clientStream && s.serverStream)
+	vEmitted = 0
+	stopped := vExpectPanic(func() {
+		if !gorumsGuard(file) {
+			return
+		}
+		data := servicesData{nil, file.Services}
+		for name, ct := range gorumsCallTypesInfo {
+			if ct.extInfo != nil {
+				genGorumsMethods(name, data, ct)
+			}
+		}
+	})
+	if illegal {
+		vReach("service-illegal-method")
+		vAssert(stopped, "C16.illegal-combination-accepted")
+		return
+	}
+	if naCombos {
+		return
+	}
+	vReach("service-valid-method")
+	vAssert(!stopped, "C16.documented-combination-rejected")
+	vAssert(vEmitted == len(methods), "C16.not-exactly-one-client-stub")
+}
+
+func VerifC16ServiceTwin(n int) { VerifC16Service(n); vFail("C16.twin") }
 
 func VerifC16ExplicitFalseTwin() { VerifC16ExplicitFalse(); vFail("C16.twin") }
 func VerifC16LatticeTwin()       { VerifC16Lattice(); vFail("C16.twin") }
